@@ -87,9 +87,14 @@ impl TestRunnerAdapter {
                                     let old = *state;
                                     let new = MachineRunningState::Stopped(pc);
                                     *state = new;
-                                    thread_sender
+                                    if thread_sender
                                         .send(MachineEvent::RunningStateChanged { old, new })
-                                        .unwrap();
+                                        .is_err()
+                                    {
+                                        // Nobody is listening any more (the session went away while we were running),
+                                        // so there is nothing left to run for
+                                        thread_is_connected.store(false, Ordering::Relaxed);
+                                    }
                                     continue;
                                 }
                             }
